@@ -241,7 +241,7 @@ def rule_effect(facts, cg):
 def run(ctx):
     facts = ctx["facts"]
     cg = CallGraph(facts)
-    return [rule_ro(facts, cg), rule_wmc(facts, cg), rule_effect(facts, cg), rule_iso(facts), rule_seg(facts), rule_cursor(facts, "C14-CURSOR", ["glaredb_core"], 1), rule_rowcount(facts)]
+    return [rule_ro(facts, cg), rule_wmc(facts, cg), rule_effect(facts, cg), rule_iso(facts), rule_seg(facts), rule_cursor(facts, "C14-CURSOR", ["glaredb_core"], 1), rule_rowcount(facts), rule_ctascreate(facts)]
 
 
 
@@ -339,6 +339,58 @@ def rule_rowcount(facts):
                           "the row count reported by INSERT / CREATE TABLE AS differs from the rows stored", rec["file"], c.line)
             elif not reported:
                 r.violate(fn.id, "count-not-reported", "the value written to the result batch does not derive from the partition's row counter", rec["file"], c.line)
+    return r
+
+
+def rule_ctascreate(facts):
+    """CREATE TABLE AS creates its table lazily, inside the operator that receives the query's batches. Whether the table comes to exist
+    must not depend on the data: a path that leaves the creating function without having reached the creation, decided by the input
+    batch (e.g. 'skip empty batches'), makes a successful CTAS over an empty result create nothing."""
+    from .c04 import _arg_roots
+    r = RuleResult("C14-CTASCREATE", "in the CREATE TABLE AS operator, no branch on the input batch decides whether the catalog entry / storage creation is reached", floor=1)
+    CAT = "glaredb_core::execution::operators::catalog::create_table_as::"
+    found = 0
+    for rec in facts.fns_matching(lambda i: CAT in i and "::tests::" not in i):
+        if "create_table" not in str(rec["bbs"]):
+            continue
+        fn = Fn(rec)
+        creates = [c for c in fn.calls() if c.name.endswith("::create_table") or c.name.endswith("::insert_table")]
+        if not creates:
+            continue
+        found += 1
+        r.functions.add(fn.id)
+        data = {l for l in range(1, fn.argc + 1) if "arrays::batch::Batch" in fn.locals[l]}
+        errs = {c.bb for c in fn.calls() if c.name.endswith("from_residual")}
+        for c in creates:
+            can, st = set(), [c.bb]
+            while st:
+                x = st.pop()
+                if x not in can:
+                    can.add(x)
+                    st.extend(fn.pred[x])
+            before = fn.reachable_from(0, avoid=[c.bb])
+            bad = []
+            for u in sorted(can):
+                if u == c.bb or u not in before:
+                    continue
+                t = fn.term(u)
+                if t[0] != "switch":
+                    continue
+                for v in fn.succ[u]:
+                    if v in can:
+                        continue
+                    if not any(e in fn.reachable_from(v, avoid=list(errs)) for e in fn.exits):
+                        continue
+                    roots = {x for x, _o in _arg_roots(fn, t[1], u)}
+                    if roots & data:
+                        bad.append(t[5] if len(t) > 5 else rec["line"])
+            r.call_sites += 1
+            r.inst({"fn": fn.id, "create_call": c.name.rsplit("::", 1)[-1], "line": c.line, "skipped_by_data_dependent_branch": bool(bad)}, not bad)
+            for ln in sorted(set(bad)):
+                r.violate(fn.id, f"create-skipped-by-data:{c.name.rsplit('::', 1)[-1]}", f"a branch on the input batch at line {ln} returns without reaching `{c.name.rsplit('::', 1)[-1]}` "
+                          f"(line {c.line}): when every batch takes that branch (an empty result) the statement succeeds but the table is never created", rec["file"], ln)
+    if not found:
+        r.missing_anchor("the catalog/storage creation call in the CREATE TABLE AS operator")
     return r
 
 
